@@ -598,7 +598,14 @@ func (e *wireExec) offer(data []byte, codec, kind string, few, meter bool) []acc
 		var tk token.Token
 		var c cid.Cid
 		var err error
+		keep := string(data)
 		st := guardT(o, dec, len(data), meter, func() { tk, c, err = runDecoder(dec, kind, data) })
+		if keep != string(data) {
+			// (the bytes a decoder is given belong to the caller: the byte-slice and the stream form
+			// of a decoder are interchangeable only if neither consumes its input)
+			o.Violate("C18", "input-bytes-changed", dec+" changed the byte slice it was given", map[string]string{"api": dec})
+			data = []byte(keep)
+		}
 		o.Eval("C09")
 		if st.panicked || st.hung {
 			continue
@@ -841,12 +848,26 @@ func (e *wireExec) step(s *XStep) {
 	if stride < 1 {
 		stride = 1
 	}
+	// a complete enumeration asked of a token beyond 3000 bytes (a blob, a wide collection) is
+	// done completely over its first and last 1000 bytes and with an odd stride in between (about
+	// 1500 positions): pos says whether a position is visited
+	sparse := s.Stride < 1 && s.Lo == 0 && s.Hi < 0 && len(data) > 3000
+	visit := func(pos, n, unit int) bool {
+		if !sparse || pos < 1000*unit || pos >= n-1000*unit {
+			return true
+		}
+		st := (n / 1500) | 1
+		return pos%st == 0
+	}
 	switch s.Op {
 	case "roundtrip":
 		e.roundtrip(w)
 	case "flip_all":
 		hi := hiOf(len(data)*8 - 1)
 		for bit := loOf(len(data) * 8); bit <= hi; bit += stride {
+			if !visit(bit, len(data)*8, 8) {
+				continue
+			}
 			m := flipBit(data, bit)
 			acc := e.offer(m, codec, kind, true, bit%64 == 0)
 			cl := byteClass(env, bit/8)
@@ -858,6 +879,9 @@ func (e *wireExec) step(s *XStep) {
 	case "trunc_all":
 		hi := hiOf(len(data) - 1)
 		for k := loOf(len(data)); k <= hi; k += stride {
+			if !visit(k, len(data), 1) {
+				continue
+			}
 			m := data[:k]
 			acc := e.offer(m, codec, kind, true, false)
 			o.Fault("truncation")
@@ -867,6 +891,9 @@ func (e *wireExec) step(s *XStep) {
 	case "del_all":
 		hi := hiOf(len(data) - 1)
 		for k := loOf(len(data)); k <= hi; k += stride {
+			if !visit(k, len(data), 1) {
+				continue
+			}
 			m := append(append([]byte{}, data[:k]...), data[k+1:]...)
 			acc := e.offer(m, codec, kind, true, false)
 			o.Fault("byte_deletion")
@@ -1156,6 +1183,33 @@ func (e *wireExec) roundtrip(w *wireTok) {
 			rec := recOf(tk)
 			if d := diffRec(orig, rec); d != "" {
 				o.Violate("C07", "field-changed", fmt.Sprintf("%s (%s): %s", dec, name, d), attrs)
+			}
+			if strings.Contains(dec, "FromSealed") {
+				// what was unsealed is sealed again by its issuer (buffered and streamed): the CID
+				// reported is the hash of THOSE bytes, and unsealing them reports it too
+				if iss := w.spec.iss(); iss >= 0 {
+					priv := e.cast.ent(iss).priv
+					var b2 []byte
+					var c2 cid.Cid
+					var e2 error
+					if !guard(o, "ToSealed(after unseal)", func() { b2, c2, e2 = tk.ToSealed(priv) }) && e2 == nil {
+						o.Eval("C08")
+						o.Sig("C08", "reseal", w.spec.Kind, w.alg, dec)
+						if !bytes.Equal(c2.Bytes(), harnessCID(b2)) {
+							o.Violate("C08", "seal-cid", fmt.Sprintf("a token unsealed by %s and sealed again reports a CID that is not the hash of the bytes it returned", dec), map[string]string{"alg": w.alg})
+						} else if _, c3, e3 := token.FromSealed(b2); e3 == nil && !bytes.Equal(c3.Bytes(), c2.Bytes()) {
+							o.Violate("C08", "unseal-cid", "seal and unseal of the same bytes report different CIDs", nil)
+						}
+					}
+					sw := newSimWriter(WriteFault{})
+					var c4 cid.Cid
+					if !guard(o, "ToSealedWriter(after unseal)", func() { c4, e2 = tk.ToSealedWriter(sw, priv) }) && e2 == nil {
+						o.Eval("C08")
+						if !bytes.Equal(c4.Bytes(), harnessCID(sw.Bytes())) {
+							o.Violate("C08", "stream-seal-cid", fmt.Sprintf("a token unsealed by %s and sealed again through ToSealedWriter reports a CID that is not the hash of the bytes written", dec), map[string]string{"alg": w.alg})
+						}
+					}
+				}
 			}
 			if first == nil {
 				first = &rec
@@ -1737,6 +1791,14 @@ func retypeValue(to string, v int) *CB {
 		return cbMap(cbText("k"), cbInt(1))
 	case "float":
 		return cbFloat64(1.5)
+	case "empty-map":
+		return cbMap()
+	case "empty-array":
+		return cbArray()
+	case "empty-text":
+		return cbText("")
+	case "empty-bytes":
+		return cbBytes([]byte{})
 	case "link":
 		return cbLink(harnessCID([]byte{byte(v)}))
 	}
@@ -1773,7 +1835,7 @@ func (e *wireExec) byzStep(s *XStep, w *wireTok, env *envelope) {
 		}
 		to := s.Kind
 		want := fieldKind(kind, f)
-		if to == want {
+		if to == want || strings.TrimPrefix(to, "empty-") == want {
 			return
 		}
 		pl.MapSet(f, retypeValue(to, s.Val))
